@@ -257,7 +257,8 @@ CONTAINER_HEADS_1 = ['list', 'set', 'frozenset', 'List', 'Set', 'Sequence', 'Ite
                      'Required', 'TypeGuard', 'Unpack', 'cabc.Set', 'cabc.KeysView']
 CONTAINER_HEADS_2 = ['dict', 'Dict', 'Mapping', 'cabc.Mapping', 'defaultdict', 'Generic2', 'cabc.ItemsView', 'OrderedDict', 'ChainMap']
 TYPING_FORMS = {'Annotated', 'Literal', 'Union', 'Optional', 'Callable', 'Tuple', 'Generator', 'Final', 'ClassVar', 'Required', 'TypeGuard',
-                'Unpack', 'Type', 'List', 'Set', 'Sequence', 'Iterable', 'Iterator', 'Dict', 'Mapping'}
+                'Unpack', 'Type', 'List', 'Set', 'Sequence', 'Iterable', 'Iterator', 'Dict', 'Mapping', 'Concatenate', 'NotRequired', 'Generic',
+                'Protocol', 'FrozenSet', 'Deque', 'DefaultDict', 'Collection'}
 HOSTILE_KINDS = {'HEq': HEq, 'HHash': HHash, 'HRepr': HRepr, 'HBool': HBool, 'HGetattr': HGetattr, 'HLen': HLen}
 
 
@@ -327,8 +328,7 @@ DEEP_HEADS = {
     'Union2': lambda h: Union[list[h], str], 'or2': lambda h: list[h] | None, 'Annotated': lambda h: Annotated[h, 0],
     'AnnotatedList': lambda h: Annotated[list[h], 0], 'type': lambda h: type[h] if isinstance(h, type) else list[h],
     'Sequence': lambda h: cabc.Sequence[h], 'Callable': lambda h: Callable[[], h], 'ga_list': lambda h: types.GenericAlias(list, (h,)),
-    'set': lambda h: frozenset[h], 'Mapping': lambda h: cabc.Mapping[h, h] if False else cabc.Mapping[str, h],
-    'Final': lambda h: list[h], 'GenericUser': lambda h: GenericUser[h],
+    'set': lambda h: frozenset[h], 'Mapping': lambda h: cabc.Mapping[str, h], 'GenericUser': lambda h: GenericUser[h],
 }
 
 
@@ -506,7 +506,7 @@ def shrinks(node):
     for c, _ in children(node):            # 1. replace the node by one of its children
         cands.append(c)
     op = node[0]
-    if op in ('sub', 'ga') and len(node[2]) > 1:          # 2. drop an argument
+    if op in ('sub', 'ga') and len(node[2]) >= 1:         # 2. drop an argument (down to none)
         for i in range(len(node[2])):
             cands.append([op, node[1], node[2][:i] + node[2][i + 1:]])
     if op in ('t', 'or') and len(node[1]) > 1:
@@ -538,7 +538,7 @@ def shrinks(node):
         if c != INT:
             cands.append(rebuild(INT))
     for c, rebuild in children(node):
-        if c != INT and c != FIVE and not children(c):
+        if c != INT and c != FIVE:
             cands.append(rebuild(FIVE))
     for c, rebuild in children(node):
         for c2 in shrinks(c):
@@ -566,12 +566,11 @@ def gen_valid(rng: random.Random, depth: int):
     if r < 0.3:
         return ['sub', N(rng.choice(['list', 'set', 'frozenset', 'List', 'Sequence', 'cabc.Sequence', 'Iterable', 'deque', 'Optional',
                                      'type', 'cabc.Collection', 'GenericUser'])),
-                [gen_valid(rng, depth - 1) if True else None]]
+                [gen_valid(rng, depth - 1)]]
     if r < 0.42:
         return ['sub', N(rng.choice(['dict', 'Dict', 'Mapping', 'cabc.Mapping', 'defaultdict'])), [N(rng.choice(['str', 'int'])), gen_valid(rng, depth - 1)]]
     if r < 0.52:
-        return ['sub', N(rng.choice(['tuple', 'Tuple'])), [gen_valid(rng, depth - 1) for _ in range(rng.randint(1, 3))] +
-                ([N('Ellipsis')] if rng.random() < 0.0 else [])]
+        return ['sub', N(rng.choice(['tuple', 'Tuple'])), [gen_valid(rng, depth - 1) for _ in range(rng.randint(1, 3))]]
     if r < 0.58:
         return ['sub', N('tuple'), [gen_valid(rng, depth - 1), N('Ellipsis')]]
     if r < 0.7:
@@ -593,7 +592,7 @@ def gen_nonhint(rng: random.Random):
     if r < 0.6:
         return rng.choice([['v', 'int', 5], ['v', 'int', 0], ['v', 'int', -1], ['v', 'float', 3.5], ['v', 'bytes', 'x'], ['v', 'int', 2 ** 70]])
     if r < 0.8:
-        return [rng.choice(['v']), rng.choice(['list', 'set', 'dict']), [N('int')] if rng.random() < 0.6 else []]
+        return ['v', rng.choice(['list', 'set', 'dict']), [N('int')] if rng.random() < 0.6 else []]
     return ['h', rng.choice(HOSTILE)]
 
 
@@ -608,13 +607,26 @@ def gen_string(rng: random.Random):
 
 def gen_unhashable_piece(rng: random.Random):
     return rng.choice([['v', 'list', []], ['v', 'list', [['v', 'int', 1]]], ['v', 'dict', []], ['v', 'set', []], ['v', 'list', [N('int')]],
-                       N('CUnhash'), ['h', 'HHash'], N('CHash'), N('slice') if False else ['v', 'dict', [N('int')]]])
+                       N('CUnhash'), ['h', 'HHash'], N('CHash'), ['v', 'dict', [N('int')]]])
+
+
+CATEGORIES = ['unsupported', 'arity', 'unhashable', 'nonhint', 'string', 'hostile', 'deep', 'bare', 'nested-bad', 'typevar',
+              'alias', 'literal', 'annotated', 'tuple', 'valid', 'callable', 'union']
+CATEGORY_WEIGHTS = [4, 4, 4, 4, 4, 4, 1, 3, 4, 4, 2, 4, 4, 4, 3, 4, 4]      # deeply nested hints cost seconds each: rare
+
+
+def how(rng: random.Random, head: str) -> str:
+    """subscription (validated by typing) or types.GenericAlias(head, …) (no validation: wrong arities, non-hints);
+    types.GenericAlias(<typing special form>, …) is kept but rare — nobody builds such objects and each breaks beartype
+    in its own (listed) way"""
+    if head in TYPING_FORMS:
+        return 'ga' if rng.random() < 0.04 else 'sub'
+    return 'ga' if rng.random() < 0.55 else 'sub'
 
 
 def gen_malformed(rng: random.Random, depth: int = 2):
     """one malformed hint; the category label is returned for the distribution"""
-    cat = rng.choice(['unsupported', 'arity', 'unhashable', 'nonhint', 'string', 'hostile', 'deep', 'bare', 'nested-bad', 'typevar',
-                      'alias', 'literal', 'annotated', 'tuple', 'valid', 'callable', 'union'])
+    cat = rng.choices(CATEGORIES, weights=CATEGORY_WEIGHTS)[0]
     v = lambda: gen_valid(rng, depth - 1)
     if cat == 'valid':
         return cat, gen_valid(rng, depth + 1)
@@ -634,10 +646,7 @@ def gen_malformed(rng: random.Random, depth: int = 2):
                                                                       'Optional', 'int', 'Plain', 'CGI2', 'DC', 'NT', 'TD', 'ProtoUser']))
         n = rng.choice([0, 0, 1, 2, 3, 4])
         args = [rng.choice([v(), N('Ellipsis'), v(), ['t', []], ['v', 'list', [N('int')]]]) for _ in range(n)]
-        how = rng.choice(['ga', 'ga', 'sub'])
-        if how == 'ga' and head[1] in TYPING_FORMS and rng.random() < 0.8:
-            how = 'sub'          # types.GenericAlias(<typing special form>, …): kept, but rare
-        return cat, [how, head, args]
+        return cat, [how(rng, head[1]), head, args]
     if cat == 'unhashable':
         u = gen_unhashable_piece(rng)
         r = rng.random()
@@ -646,9 +655,11 @@ def gen_malformed(rng: random.Random, depth: int = 2):
         elif r < 0.5:
             inner = ['sub', N('Literal'), [u]]
         elif r < 0.65:
-            inner = [rng.choice(['sub', 'ga']), N(rng.choice(CONTAINER_HEADS_1)), [u]]
+            h1 = rng.choice(CONTAINER_HEADS_1)
+            inner = [how(rng, h1), N(h1), [u]]
         elif r < 0.8:
-            inner = ['ga', N(rng.choice(CONTAINER_HEADS_2)), [u, v()] if rng.random() < 0.5 else [v(), u]]
+            h2 = rng.choice(CONTAINER_HEADS_2)
+            inner = [how(rng, h2), N(h2), [u, v()] if rng.random() < 0.5 else [v(), u]]
         elif r < 0.9:
             inner = u
         else:
@@ -664,9 +675,11 @@ def gen_malformed(rng: random.Random, depth: int = 2):
         if r < 0.45:
             return cat, x
         if r < 0.75:
-            return cat, [rng.choice(['sub', 'ga']), N(rng.choice(CONTAINER_HEADS_1)), [x]]
+            h1 = rng.choice(CONTAINER_HEADS_1)
+            return cat, [how(rng, h1), N(h1), [x]]
         if r < 0.9:
-            return cat, ['ga', N(rng.choice(CONTAINER_HEADS_2)), [x, v()] if rng.random() < 0.5 else [v(), x]]
+            h2 = rng.choice(CONTAINER_HEADS_2)
+            return cat, [how(rng, h2), N(h2), [x, v()] if rng.random() < 0.5 else [v(), x]]
         return cat, ['sub', N('Union'), [v(), x]]
     if cat == 'string':
         s = gen_string(rng)
@@ -684,7 +697,8 @@ def gen_malformed(rng: random.Random, depth: int = 2):
         if r < 0.3:
             return cat, x
         if r < 0.5:
-            return cat, [rng.choice(['sub', 'ga']), N(rng.choice(CONTAINER_HEADS_1)), [x]]
+            h1 = rng.choice(CONTAINER_HEADS_1)
+            return cat, [how(rng, h1), N(h1), [x]]
         if r < 0.6:
             return cat, ['sub', N('Literal'), [x]]
         if r < 0.75:
@@ -734,7 +748,8 @@ def gen_malformed(rng: random.Random, depth: int = 2):
                      [rng.choice([N('T'), N('P'), N('Ts'), v(), ['sub', N('Unpack'), [N('Ts')]]]) for _ in range(rng.randint(1, 2))]]
     if cat == 'alias':
         r = rng.random()
-        body = rng.choice([N('ALIAS_SELF'), ['sub', N('list'), [N('ALIAS_SELF')]], ['sub', N('Union'), [N('int'), ['sub', N('list'), [N('ALIAS_SELF')]]]],
+        # (`type A = A` itself is left out: beartype never returns from it — a hang, not an exception)
+        body = rng.choice([['sub', N('list'), [N('ALIAS_SELF')]], ['sub', N('Union'), [N('int'), ['sub', N('list'), [N('ALIAS_SELF')]]]],
                            gen_nonhint(rng), N(rng.choice(SPECIAL_FORMS)), gen_string(rng), v(), ['ga', N('list'), [N('int'), N('str')]],
                            ['sub', N('dict'), [N('str'), N('ALIAS_SELF')]], ['or', [N('ALIAS_SELF'), N('None')]]])
         a = ['alias', body]
@@ -745,12 +760,12 @@ def gen_malformed(rng: random.Random, depth: int = 2):
         vals = [rng.choice([gen_nonhint(rng), gen_unhashable_piece(rng), v(), ['v', 'float', 3.4], ['t', []], ['t', [['v', 'int', 1]]],
                             N('EnumC'), N('EnumC.A'), ['v', 'int', 1], N('None'), ['sub', N('Literal'), [['v', 'int', 1]]], N('Ellipsis')])
                 for _ in range(rng.randint(0, 2))]
-        return cat, [rng.choice(['sub', 'sub', 'sub', 'sub', 'sub', 'sub', 'ga']), N('Literal'), vals]
+        return cat, [how(rng, 'Literal'), N('Literal'), vals]
     if cat == 'annotated':
         metas = [rng.choice([gen_nonhint(rng), gen_unhashable_piece(rng), ['is', rng.choice([['T'], ['F'], ['N']])], v(),
                              N(rng.choice(SPECIAL_FORMS))]) for _ in range(rng.randint(0, 2))]
         base = rng.choice([v(), gen_nonhint(rng), N(rng.choice(SPECIAL_FORMS)), gen_string(rng), ['ga', N('list'), [N('int'), N('str')]]])
-        return cat, [rng.choice(['sub', 'sub', 'sub', 'sub', 'sub', 'sub', 'ga']), N('Annotated'), [base] + metas]
+        return cat, [how(rng, 'Annotated'), N('Annotated'), [base] + metas]
     if cat == 'tuple':
         items = [rng.choice([v(), N('Ellipsis'), gen_nonhint(rng), gen_string(rng), ['t', []], N(rng.choice(SPECIAL_FORMS)),
                              ['sub', N('Unpack'), [N('Ts')]], ['sub', N('Unpack'), [['sub', N('tuple'), [N('int'), N('Ellipsis')]]]]])
@@ -759,18 +774,18 @@ def gen_malformed(rng: random.Random, depth: int = 2):
         if r < 0.3:
             return cat, ['t', items]
         head = rng.choice(['tuple', 'tuple', 'Tuple'])
-        return cat, [rng.choice(['sub', 'ga', 'ga']) if head == 'tuple' else rng.choice(['sub', 'sub', 'sub', 'sub', 'ga']), N(head), items]
+        return cat, [how(rng, head), N(head), items]
     if cat == 'callable':
         params = rng.choice([N('Ellipsis'), ['v', 'list', [v()]], ['v', 'list', [gen_nonhint(rng)]], N('P'), v(), ['v', 'list', []],
                              ['sub', N('Concatenate'), [N('int'), N('P')]], gen_nonhint(rng), ['t', [N('int')]]])
         ret = rng.choice([v(), gen_nonhint(rng), N(rng.choice(SPECIAL_FORMS)), gen_string(rng)])
         args = rng.choice([[params, ret], [params], [params, ret, v()], []])
         head = rng.choice(['Callable', 'cabc.Callable'])
-        return cat, [rng.choice(['sub', 'ga', 'ga']) if head != 'Callable' else rng.choice(['sub', 'sub', 'sub', 'sub', 'ga']), N(head), args]
+        return cat, [how(rng, head), N(head), args]
     if cat == 'union':
         items = [rng.choice([v(), gen_nonhint(rng), N(rng.choice(SPECIAL_FORMS)), gen_string(rng), gen_unhashable_piece(rng),
                              ['h', rng.choice(HOSTILE)], N(rng.choice(HOSTILE_CLASSES))]) for _ in range(rng.randint(1, 3))]
-        return cat, [rng.choice(['sub', 'sub', 'sub', 'or', 'or', 'sub', 'ga']), N('Union'), items] if rng.random() < 0.7 else ['or', items]
+        return cat, [rng.choice(['sub', 'sub', 'sub', 'or', 'or', 'sub', how(rng, 'Union')]), N('Union'), items] if rng.random() < 0.7 else ['or', items]
     raise AssertionError(cat)
 
 
